@@ -101,6 +101,12 @@ func cdsNeedsPush(req *model.PushRequest, proxy *model.Proxy) (*model.PushReques
 			}
 		}
 
+		if proxy.Type == model.Waypoint && config.Kind == kind.RequestAuthentication && features.JwksFetchMode != jwt.Istiod {
+			// Waypoint clusters include the JWKS hosts of the RequestAuthentications that target it (ExtraWaypointServices).
+			relevantUpdates.Insert(config)
+			continue
+		}
+
 		if !skippedCdsConfigs.Contains(config.Kind) {
 			relevantUpdates.Insert(config)
 		} else {
